@@ -1247,7 +1247,7 @@ class C03(Prop):
         if i.startswith("panic") or i == "abort":
             ev.judge = "builder panicked on: " + case["label"]
         elif case["kind"] == "canonical" and not i.startswith("ok"):
-            ev.judge = "canonical well-formed file refused: " + i
+            ev.judge = "well-formed file refused (canonical rendering of a generated file): " + i
         elif wf and not i.startswith("ok"):
             ev.judge = "well-formed file refused (%s): %s" % (case["label"], i)
         elif not wf and i.startswith("ok"):
@@ -1258,9 +1258,20 @@ class C03(Prop):
         return ev
 
     def shrink(self, case):
-        for k in range(len(case["lines"])):
+        lines = case["lines"]
+        label = case["label"] if case["label"].startswith("shrunk") else "shrunk: " + case["label"]
+        starts = [k for k, t in enumerate(lines) if t.startswith("chain ")] + [len(lines)]
+        cands = []
+        for a, b in zip(starts, starts[1:]):
+            cands.append(lines[:a] + lines[b:])          # drop a whole chain
+        for k in range(len(lines)):
+            cands.append(lines[:k] + lines[k + 1:])      # drop one line
+        for l2 in cands:
             c = copy.deepcopy(case)
-            del c["lines"][k]
+            c["lines"] = l2
+            # a shrunk file is no longer "the canonical rendering": only the WFFile judge applies
+            c["kind"] = "mutated"
+            c["label"] = label
             yield c
 
     def neighbours(self, case, rng):
@@ -1733,7 +1744,7 @@ class C13(Prop):
             "generated files re-serialised from the printed lines (header, data lines, blank line): judge = the printed text parses "
             "back to the same record and prints identically again, canonical text prints back byte-identically, the re-serialised "
             "file yields equal sections and equal liftover answers; non-trivial = an accepted line with a non-canonical numeral or "
-            "an odd name, or a file with >= 2 sections; distinct by text")
+            "an odd name, or a file with >= 2 sections (files include zero-size blocks, also as the last block of a chain); distinct by text")
 
     def cases(self, rng, tier):
         n = 3000 if tier == "quick" else 100000
@@ -1744,7 +1755,7 @@ class C13(Prop):
             elif r < 0.9:
                 yield {"kind": "line", "text": gen_data_text(rng, valid=rng.random() < 0.8)}
             else:
-                chains = ch.gen_file(rng, max_chains=3) if rng.random() < 0.8 else ch.gen_big_file(rng)
+                chains = ch.gen_file(rng, max_chains=3, zero_prob=0.2) if rng.random() < 0.8 else ch.gen_big_file(rng)
                 ivs = [list(ch.gen_interval(rng, chains)) for _ in range(8)]
                 yield {"kind": "file", "chains": [ch.chain_to_dict(c) for c in chains], "style": ch.style_to_dict(ch.gen_style(rng)), "ivs": ivs}
 
@@ -1787,29 +1798,24 @@ class C13(Prop):
                 ev.tags.append("file:" + i.split(" ")[0])
                 return ev
             secs = ctx.impl.ask("sections %s 1000" % src)
-            raws = ctx.impl.ask("raw " + src).split(" ")[:-1]
-            out = []
-            for t in raws:
-                text = ch.unhx(t.split(":")[1])
-                if not text:
-                    continue
-                r = ctx.impl.ask("line " + hx(text))
-                if not r.startswith("ok"):
-                    ev.judge = "line of an accepted file does not parse alone: %r" % text
-                    return ev
-                pr = ch.unhx(r.rsplit(" print=", 1)[1])
-                out.append(pr)
-                if r.startswith("ok data") and r.split(" print=")[0].endswith(" T"):
-                    out.append(b"")
-            data2 = b"\n".join(out) + b"\n"
-            src2 = ch.src_one(data2)
+            r, rm = both(ctx, ev, "reser " + src)
+            if r != rm:
+                ev.corr = "re-serialisation: impl %r vs model %r" % (r[:300], rm[:300])
+            if not r.startswith("ok "):
+                ev.judge = "the sections of an accepted file could not be re-serialised: " + r[:100]
+                return ev
+            src2 = "c" + r[4:] if len(r) > 4 else "-"
             secs2 = ctx.impl.ask("sections %s 1000" % src2)
             i2 = ctx.impl.ask("liftover %s %s" % (src2, ivs))
             ev.requests.append("liftover %s %s" % (src2, ivs))
             if secs2 != secs:
-                ev.judge = "re-serialised file parses to different sections"
+                ev.judge = "re-serialised file parses to different sections: %s vs %s" % (secs2[:200], secs[:200])
             elif i2 != i:
                 ev.judge = "re-serialised file builds a machine with different answers: %s vs %s" % (i2[:200], i[:200])
+            else:
+                r3 = ctx.impl.ask("reser " + src2)
+                if r3 != r:
+                    ev.judge = "canonical text does not print back byte-identically (second re-serialisation differs)"
             ev.tags.append("file:ok")
             if len(case["chains"]) >= 2:
                 ev.nontrivial = case_key(case)
@@ -2109,7 +2115,7 @@ class C18(Prop):
     rule = ("rustc compiles the probe crate harness/sendsync against /repo (static Send + Sync assertions for Machine, "
             "ContiguousIntervalPair, the answer type and every error type; 'static for Machine); the source inventory finds no "
             "`unsafe`, Cell/RefCell/Rc, `static mut` or thread_local!; generated files x query lists are answered on one thread "
-            "and on 8 threads sharing one Arc<Machine> (20 rounds each, different start offsets) and compared with each other "
+            "and on 8 threads sharing one Arc<Machine> (300 rounds each, different offsets and strides, every query issued 1-3 times in a row) and compared with the sequential answers "
             "and with the model; non-trivial = a query list with >= 1 non-empty answer; distinct by (file, queries)")
     trusted = ["rustc's Send/Sync auto-trait checking and borrow checker (the argument for real interleavings)",
                "the probe crate /verif/harness/sendsync"]
@@ -2128,8 +2134,15 @@ class C18(Prop):
             return out
         self.probe = os.path.join(d, "target", "release", "cfsendsync")
         _, sharing = inventory.scan()
-        if sharing:
-            out.append(("judge", "unsafe / interior mutability found in /repo/src: %s" % sharing))
+        unsafe = {k: v for k, v in sharing.items() if k.endswith("::unsafe")}
+        shared = {k: v for k, v in sharing.items() if not k.endswith("::unsafe")}
+        if unsafe:
+            out.append(("judge", "unsafe code found in /repo/src: %s" % unsafe))
+        if shared:
+            # the model's premise (a query is a read-only step on an immutable machine) is no longer
+            # tied to the code: look for a failing interleaving, report no-failing-input-found otherwise
+            out.append(("corr", "interior mutability / shared mutable state in /repo/src that the model of "
+                                "Machine::liftover (a pure function of an immutable machine) does not account for: %s" % shared))
         return out
 
     def cases(self, rng, tier):
@@ -2156,8 +2169,8 @@ class C18(Prop):
             return ev
         seq = lines[0][4:]
         for t, p in enumerate(lines[1][4:].split("|")):
-            if p != seq:
-                ev.judge = "thread %d saw different answers than the sequential run" % t
+            if p != "ok":
+                ev.judge = "concurrent answers differ from the sequential run: " + p[:300]
                 return ev
         # against the model
         m = ctx.model.ask("liftover %s %s" % (ch.src_one(data), ",".join(iv_tok(*iv) for iv in ivs)))
